@@ -4,6 +4,8 @@ use crate::ctx::Ctx;
 use crate::drive::Case;
 
 pub mod c01;
+pub mod c05;
+pub mod c06;
 
 pub struct Prop {
     pub id: &'static str,
@@ -29,5 +31,5 @@ pub const COMMON_ASSUMPTIONS: [&str; 4] = [
 ];
 
 pub fn registry() -> Vec<Prop> {
-    vec![c01::prop()]
+    vec![c01::prop(), c05::prop(), c06::prop()]
 }
